@@ -193,6 +193,8 @@ def run(F, res, tier):
     search_rejections_are_reviewed(F, res)
     search_scope_narrowings_are_reviewed(F, res)
     textual_hits_may_overlap(F, res)
+    from rules import c07 as _c07
+    _c07.label_classifiers_agree(F, res, rule="R11")   # the declaration side and the use side of a label name one field
 
 
 def EF_constructions(F, adt):
